@@ -18,6 +18,8 @@ import shutil
 
 SPEC = "path/ShortestPath.tla"
 CFG = "path/ShortestPath.cfg"
+TSPEC = "path/ShortestPathTrace.tla"
+TCFG = "path/ShortestPathTrace.cfg"
 
 IDS = "[[1,2,3,4,5,6],[-7,1000000007,0,42,3,9223372036854775807]]"
 
@@ -48,29 +50,64 @@ def run(ctx):
         # name, subst, kinds, views
         ("all digraphs <=3 nodes, weights {-2,0,1,3}", subst(0, 3, True, "{0,2,3,5}", 2),
          "weighted,matrix", "graph,traverse"),
-        ("all undirected graphs <=4 nodes, weights {-2,0,1,3}", subst(0, 4, False, "{0,2,3,5}", 2),
+        ("all undirected graphs <=4 nodes, weights {-2,0,1}", subst(0, 4, False, "{0,2,3}", 2),
          "weighted,matrix", "graph,traverse"),
         ("all unit-weight digraphs <=4 nodes (UniformCost)", subst(0, 4, True, "{1}", 0),
-         "uniform,weighted", "graph,traverse"),
+         "uniform", "graph,traverse"),
         ("sampled digraphs on 4 nodes, weights {-2,0,1,3}, seed %d" % ctx.seed,
-         subst(4, 4, True, "{0,2,3,5}", 2, mode="sample", seed=ctx.seed, nsamples=20000 if thorough else 2500),
+         subst(4, 4, True, "{0,2,3,5}", 2, mode="sample", seed=ctx.seed, nsamples=20000 if thorough else 1500),
          "weighted,matrix", "graph,traverse"),
         ("sampled digraphs on 4 nodes, weights {0,1,2} (ties, zero cycles, Yen), seed %d" % ctx.seed,
-         subst(4, 4, True, "{0,1,2}", 0, mode="sample", seed=ctx.seed, nsamples=20000 if thorough else 2500),
+         subst(4, 4, True, "{0,1,2}", 0, mode="sample", seed=ctx.seed, nsamples=20000 if thorough else 1500),
          "weighted", "graph"),
     ]
     if thorough:
         plans += [
-            ("sampled digraphs on 5 nodes, weights {-1,0,1,2}, seed %d" % ctx.seed,
-             subst(5, 5, True, "{0,1,2,3}", 1, mode="sample", seed=ctx.seed, nsamples=6000),
+            ("all undirected graphs <=4 nodes, weights {-2,0,1,3}", subst(0, 4, False, "{0,2,3,5}", 2),
              "weighted,matrix", "graph,traverse"),
-            ("all digraphs on 4 nodes, weights {0,1} (shard of 4 by seed)",
+            ("sampled digraphs on 5 nodes, weights {-1,0,1,2}, seed %d" % ctx.seed,
+             subst(5, 5, True, "{0,1,2,3}", 1, mode="sample", seed=ctx.seed, nsamples=5000),
+             "weighted,matrix", "graph,traverse"),
+            ("sampled undirected graphs on 5 nodes, weights {0,1,2}, seed %d" % ctx.seed,
+             subst(5, 5, False, "{0,1,2}", 0, mode="sample", seed=ctx.seed, nsamples=5000),
+             "weighted", "graph"),
+            ("all digraphs on 4 nodes, weights {0,1} (shard %d of 4 by seed)" % (ctx.seed % 4),
              subst(4, 4, True, "{0,1}", 0, shard=ctx.seed % 4, nshards=4), "weighted", "graph"),
         ]
     for name, sb, kinds, views in plans:
         cases = ctx.gen(SPEC, CFG, subst=sb, name="R2 gen " + name)
         ctx.replay(hb, "path-small", cases, ["kinds=" + kinds, "views=" + views, "ids=" + IDS],
                    name="R2 replay " + name)
+
+    # ---- R3: random graphs to 60 nodes through the real routines, judged by TLC ---------------
+    ngraphs = 120 if thorough else 24
+    groups = [
+        ("no-zero-cycles", "sparse-pos,dense-ties,disconnected,neg-dag,neg-cycle-far,undirected-pos"),
+        ("zero-cycles", "zero-cycles,undirected-zero,neg-mixed"),
+    ]
+    for gname, fams in groups:
+        tr = os.path.join(ctx.work, "ptrace-%s.ndjson" % gname)
+        summ = ctx.record(hb, "path-rand", tr, ["graphs=%d" % ngraphs, "maxn=60", "fams=" + fams],
+                          name="R3 record %s" % gname)
+        ok, st = ctx.validate(TSPEC, TCFG, tr, subst=dict(KNOWNCUT="FALSE"), name="R3 validate %s" % gname)
+        if ok:
+            ctx.traces += summ.get("traces", 0)
+            continue
+        keep = os.path.join(ctx.work, "..", "..", "replays", "C13")
+        os.makedirs(keep, exist_ok=True)
+        dst = os.path.abspath(os.path.join(keep, "ptrace-%s-seed%d.ndjson" % (gname, ctx.seed)))
+        shutil.copy(tr, dst)
+        # classify: is the zero-weight-cycle cut of ShortestAlts.To / AllShortest.Between the only reason?
+        ok2, st2 = ctx.validate(TSPEC, TCFG, tr, subst=dict(KNOWNCUT="TRUE"),
+                                name="R3 classify %s (paths of To/Between on zero-cycle graphs only start/end-checked)" % gname)
+        if ok2:
+            ctx.notes.append("R3 %s: the strict pass rejected (%s); the classifying pass accepted every other clause of "
+                             "the %d-graph trace" % (gname, st.get("detail", "")[:160], summ.get("traces", 0)))
+            ctx.violation("path:trace:zero-cycle-cut-nonwalk", st.get("detail", "")[:600],
+                          {"trace": dst, "spec": TSPEC, "cfg": dict(KNOWNCUT="FALSE")})
+        else:
+            ctx.violation("path:trace-rejected:%s" % gname, st2.get("detail", "")[:600],
+                          {"trace": dst, "spec": TSPEC, "cfg": dict(KNOWNCUT="TRUE")})
 
     ctx.assumptions += [
         "TLC/SANY and the CommunityModules Json module are trusted",
@@ -80,12 +117,19 @@ def run(ctx):
     ]
     return ctx.finish(
         rule="R2: one case = one graph with the complete expected answers of all routines, replayed on every "
-             "container kind x id binding x view; non-trivial = the graph has at least one edge.",
+             "container kind x id binding x view; non-trivial = the graph has at least one edge. "
+             "R3: one trace = one random graph with the logged answers of all routines.",
         exhaustive=True)
 
 
 def replay(ctx, path):
     d = json.load(open(path))["data"]
+    if "trace" in d:
+        ok, st = ctx.validate(d["spec"], TCFG, d["trace"], subst=d["cfg"])
+        print("trace accepted" if ok else "trace rejected: " + st.get("detail", "")[:800])
+        if not ok:
+            print("VIOLATION property=C13 replay=%s" % path)
+        return 0 if ok else 1
     one = os.path.join(ctx.work, "one.ndjson")
     with open(one, "w") as fh:
         fh.write(json.dumps(d["failure"]["case"]) + "\n")
